@@ -39,7 +39,7 @@ def macro_sets(rng, n):
         mm = HEAD + "#define fVEC(X) (X)\n"
         patches = "// patches\n#define DEF_SHORTCODE(TAG, SHORTCODE) insn(TAG, SHORTCODE)\n" \
             "#define fSTORE(V) mem_store_u32(EA, V)\n" \
-            "#define fUSERONLY(X) \\\n    (X + 1)\n"
+            "#define fUSERONLY(X) \\" + ["", " ", " \t "][k % 3] + "\n    (X + 1)\n"  # blanks behind a continuation backslash (cpp, clang, pcpp join)
         if rng.random() < 0.5:
             patches += "#define fADD(A, B) (A + B)\n"
         sc = 'DEF_SHORTCODE(T1_add, { RdV = fADD(RsV, RtV); })\n' \
